@@ -648,6 +648,18 @@ def check_C19(sc, v, tier, seed, replay):
                                                  opts={"det": si + seed % 3, "gnb_bits": 22 + (seed + 4 * 9) % 11, "free_msin": s[1] == 0, "imsi_len": 15, "low": 9999},
                                                  fault=fl)
                 jobs.append(("f%d-%s%02d%s" % (si, kind, at, "abcde"[gi] if kind == "garbage" else ""), scn, text))
+        # two events in one run: the message whose content the emulator ignores (what follows a Registration Complete) is undecodable,
+        # which it may shrug off, and a later consumed answer is undecodable too (whatever made it shrug must not outlive that message)
+        pre = 4 if s[0] == 1 or s[1] == 0 else 8
+        later = [a for a in range(pre + 1, reads) if a not in ignored]
+        if tier != "quick" and si > 0:
+            later = later[si % 2::2]
+        for a in later:
+            fl = {"kind": "garbage", "at": a, "bytes": classes[(a + si) % 2], "pre": pre, "prebytes": classes[(a + si + 1) % 2]}
+            scn, text = online.make_scenario(random.Random(seed * 7 + si), counts,
+                                             opts={"det": si + seed % 3, "gnb_bits": 22 + (seed + 4 * 9) % 11, "free_msin": s[1] == 0, "imsi_len": 15, "low": 9999},
+                                             fault=fl)
+            jobs.append(("f%d-pre%02d-garbage%02d" % (si, pre, a), scn, text))
     runs = online.run_many(sc, emu, jobs, parallel=16, timeout=900)
     for r in runs:
         for rj in r["tlc"].rejects:
